@@ -606,4 +606,24 @@ Section ConstructProofs.
     destruct (errors_of (pre_args ds)) as [|e rest]; [reflexivity|].
     cbn [map]. rewrite map_map. reflexivity.
   Qed.
+  (* the loop with uncaught exceptions coincides with [construct] when every error is a TypeError / ValueError:
+     the theorems about [construct] speak about the code on exactly those argument lists *)
+  Lemma collect_loop_caught : forall args acc,
+      all_caught args = true -> collect_loop args acc = inr (acc ++ map snd (errors_of (map forget args))).
+  Proof.
+    induction args as [|[n [[m c]|]] t IH]; intros acc H; cbn [collect_loop map forget errors_of fst snd option_map].
+    - rewrite app_nil_r. reflexivity.
+    - cbn [all_caught forallb snd] in H. destruct c; [|discriminate H]. cbn [andb] in H.
+      rewrite (IH _ H). cbn [map snd]. rewrite <- app_assoc. reflexivity.
+    - cbn [all_caught forallb snd andb] in H. apply IH. exact H.
+  Qed.
+
+  Lemma construct_u_caught ff cls args :
+    all_caught args = true -> construct_u dumps ff cls args = construct dumps ff cls (map forget args).
+  Proof.
+    intro H. unfold construct_u. destruct ff; [reflexivity|].
+    rewrite (collect_loop_caught args [] H). cbn [app]. unfold construct.
+    destruct (errors_of (map forget args)) as [|[n m] rest]; [reflexivity|].
+    cbn [map snd]. rewrite map_map. reflexivity.
+  Qed.
 End ConstructProofs.
